@@ -32,7 +32,9 @@ fn arg(rng: &mut Rng, img: &RefImage) -> String {
         5 => format!("^{}", rng.range(-4, 6)),
         6 => format!("r{}", rng.below(8)),
         7 => rng.s(&["x0", "xFFFF", "xFE00", "xFDFF", "0", "65535", "-1", "x8000", "#-32768"]).to_string(),
-        8 => rng.s(&["r8", "xyz", "12ab", "^^", "+", "--1", "0#1", "\u{e9}", "nolabel", "x", "#", "R", "^x"]).to_string(),
+        8 => rng.s(&["r8", "xyz", "12ab", "^^", "+", "--1", "0#1", "\u{e9}", "nolabel", "x", "#", "R", "^x",
+            // an `r` followed by something that is no register digit: a label with an offset, or nothing at all
+            "r+1", "r-1", "R-", "r.", "r/", "r#1", "r,", "r!", "R+0", "r-x2", "r:", "r9", "r\u{e9}"]).to_string(),
         9 => format!("{}", rng.below(100000)),
         10 => "".into(),
         11 if !img.labels.is_empty() => {
